@@ -43,10 +43,8 @@ def noTryB : Body → Bool
 /-- no function of the table contains a `try` -/
 def noTryF (F : Funs) : Bool := F.all fun fd => noTryB fd.body
 
-/-- the two shapes in which a failed assertion travels: as the type error itself, or — after leaving
-a generator — as a string error with the same message -/
-def isFailRes (r : Res) : Prop :=
-  (∃ h t, r = .err (.type h t)) ∨ (∃ h t, r = .err (.thrown (.str (typeErrMsg h t))))
+/-- the result is a failed assertion (the type error) -/
+def isFailRes (r : Res) : Prop := ∃ h t, r = .err (.type h t)
 
 /-- either no assertion failed, or the result is the failure -/
 def Surf (m : St → Res × St) : Prop := ∀ s, (m s).2.fails = s.fails ∨ isFailRes (m s).1
@@ -57,7 +55,7 @@ theorem surf_const (g : St → Res × St) (hg : ∀ s, (g s).2.fails = s.fails) 
 theorem surf_ret (r : Res) : Surf (fun s => (r, s)) := surf_const _ (fun _ => rfl)
 
 theorem not_fail_ok (v : V) : ¬ isFailRes (.ok v) := by
-  rintro (⟨h, t, e⟩ | ⟨h, t, e⟩) <;> cases e
+  rintro ⟨h, t, e⟩; cases e
 
 theorem surf_andThen {m : St → Res × St} {k : V → St → Res × St} (hm : Surf m) (hk : ∀ v, Surf (k v)) :
     Surf (fun s => andThen (m s) k) := by
@@ -89,15 +87,6 @@ theorem surf_restore_self {m : St → Res × St} (hm : Surf m) : Surf (fun s => 
   intro s
   exact hm s
 
-theorem surf_genErr {m : St → Res × St} (hm : Surf m) : Surf (fun s => genErr (m s)) := by
-  intro s
-  rcases hm s with h | h
-  · exact Or.inl (by rw [genErr_snd]; exact h)
-  · right
-    rcases h with ⟨hh, t, e⟩ | ⟨hh, t, e⟩
-    · exact Or.inr ⟨hh, t, by simp [genErr, e]⟩
-    · exact Or.inr ⟨hh, t, by simp [genErr, e]⟩
-
 theorem surf_assert (h : Option Hint) (v : V) : Surf (fun s => assertHint true h v s) := by
   intro s
   cases h with
@@ -106,7 +95,7 @@ theorem surf_assert (h : Option Hint) (v : V) : Surf (fun s => assertHint true h
     simp only [assertHint]
     by_cases hc : check h.name h.opt v = true
     · simp [hc]
-    · right; left; exact ⟨h, typeName v, by simp [hc]⟩
+    · right; exact ⟨h, typeName v, by simp [hc]⟩
 
 theorem surf_assert_out (v : V) : Surf (fun s => assertHint true s.out v s) :=
   fun s => surf_assert s.out v s
@@ -150,7 +139,7 @@ theorem surf_bindR {m : St → Res × St} {k : Res → St → Res × St} (hm : S
 
 theorem finishCall_pass (out : Option Hint) (r : Res) (s : St) (h : isFailRes r) :
     finishCall true out r s = (r, s) := by
-  rcases h with ⟨hh, t, e⟩ | ⟨hh, t, e⟩ <;> subst e <;> rfl
+  obtain ⟨hh, t, e⟩ := h; subst e; rfl
 
 theorem surf_finishCall (out : Option Hint) (r : Res) : Surf (finishCall true out r) := by
   unfold finishCall
@@ -319,7 +308,7 @@ theorem surfAt_succ (F : Funs) (hF : noTryF F = true) (n : Nat) (ih : SurfAt F n
       exact surf_andThen (surf_bindLoop bs v) (fun _ => surf_andThen (ih.eval body hb) (fun w => ih.forItems _ _ _ _ hb))
   · intro bs i genv st pc body last hb
     simp only [forGen]
-    refine surf_andThen (surf_genErr (surf_restore_self (surf_pre _ (fun _ => rfl) (ih.genNext i st pc)))) (fun r => ?_)
+    refine surf_andThen (surf_restore_self (surf_pre _ (fun _ => rfl) (ih.genNext i st pc))) (fun r => ?_)
     split
     · exact surf_andThen (surf_bindLoop bs _) (fun _ => surf_andThen (ih.eval body hb) (fun w => ih.forGen _ _ _ _ _ _ _ hb))
     · exact surf_ret _
@@ -346,7 +335,7 @@ theorem surfAt_succ (F : Funs) (hF : noTryF F = true) (n : Nat) (ih : SurfAt F n
             · exact ih.genNext _ _ _
             · exact surf_ret _
             · exact surf_ret _
-          · rcases h with ⟨hh, t, e⟩ | ⟨hh, t, e⟩ <;> subst e <;> rfl
+          · obtain ⟨hh, t, e⟩ := h; subst e; rfl
     · exact surf_ret _
 
 theorem surfAt (F : Funs) (hF : noTryF F = true) : ∀ n, SurfAt F n
